@@ -111,6 +111,10 @@ def body(cfg, ctx):
         if len(_json.dumps(cfg, sort_keys=True)) % 2 == 0:
             cfg = dict(cfg, decoy=True)
             ctx.event('with-skipped-lookalike-route')
+    import json as _json
+    if len(_json.dumps(cfg, sort_keys=True)) % 3 == 0:
+        # every third configuration: the Route (and every inner application) was bound somewhere else before
+        cfg = dict(cfg, prebound=True)
     try:
         plan = I.predict(cfg)
     except I.Reject:
@@ -118,6 +122,8 @@ def body(cfg, ctx):
         return
     try:
         built = I.build(cfg)
+        if getattr(built, 'prebound', 0):
+            ctx.event('bound-elsewhere-before')
     except Exception as e:
         ctx.event('rejected-by-clastic(skipped; C01 decides)')
         return
